@@ -537,8 +537,9 @@ def _ref_rule(r, p, ref_src, modq, init_ok=(), skip=(), branch_skip=()):
         def one(fn=fn, ref=ref):
             # keyword arguments of calls of sibling functions are bound positionally first (spelling only)
             node = _bind_keywords(p, fn, modq)
+            ref_b = _bind_keywords(p, None, modq, node=ref)
             names = None
-            res = refdefs.compare(node, ref, names=names, init_ok=init_ok, skip_under=branch_skip)
+            res = refdefs.compare(node, ref_b, names=names, init_ok=init_ok, skip_under=branch_skip)
             for nm, text, ln in res["mismatch"]:
                 if nm in skip:
                     continue
@@ -553,10 +554,10 @@ def _ref_rule(r, p, ref_src, modq, init_ok=(), skip=(), branch_skip=()):
         r.guard(fn.qualname, one)
 
 
-def _bind_keywords(p, fn, modq):
+def _bind_keywords(p, fn, modq, node=None):
     import copy
 
-    node = copy.deepcopy(fn.node)
+    node = copy.deepcopy(fn.node if node is None else node)
     mod = p.module(modq)
 
     class B(ast.NodeTransformer):
